@@ -17,7 +17,7 @@ from .sym import (SymInt, SymBool, SStr, SymRatio, EngineError, branch, mk, mks,
 from .objs import (Cls, Obj, Func, BoundMethod, Builtin, NativeMethod, SuperProxy, ModStub, Module,
                    PyRaise, RegexObj, MatchObj, FileObj)
 from . import strmodel, rx
-from .lists import SeqList, ArrList, SymRange, EnumView, AbsList
+from .lists import SeqList, ArrList, SymRange, EnumView, AbsList, GhostKey, GhostDict
 
 MAX_CALL_DEPTH = 960       # CPython's default recursion limit is 1000
 
@@ -635,6 +635,8 @@ class Interp:
         raise EngineError("compare op")
 
     def contains(self, container, item):
+        if isinstance(container, GhostDict):
+            return container.contains(self, item)
         if isinstance(container, (str, SStr)):
             if not isinstance(item, (str, SStr)):
                 self.raise_("TypeError", "'in <string>' requires string as left operand")
@@ -681,6 +683,8 @@ class Interp:
             return v != 0
         if isinstance(v, (int, float)):
             return v != 0
+        if isinstance(v, GhostKey):
+            return v.gid != 0
         if isinstance(v, (str, list, tuple, dict, bytes, bytearray, SStr, range, set, frozenset)):
             return len(v) > 0
         if isinstance(v, (SeqList, ArrList, AbsList)):
@@ -806,7 +810,7 @@ class Interp:
     def setitem(self, o, i, v):
         if self.write_hook is not None:
             self.write_hook(self, o, i, "item")
-        if isinstance(o, (SeqList, ArrList)):
+        if isinstance(o, (SeqList, ArrList, GhostDict)):
             return o.setitem(self, i, v)
         if isinstance(o, list):
             if isinstance(i, SymInt):
@@ -928,7 +932,7 @@ class Interp:
             return Builtin("file." + name, lambda *a, _n=name: self._file_op(o, _n, *a))
         if isinstance(o, Builtin) and o.name == "int" and name == "from_bytes":
             return Builtin("int.from_bytes", self._from_bytes)
-        if isinstance(o, (SeqList, ArrList)):
+        if isinstance(o, (SeqList, ArrList, AbsList)):
             return NativeMethod(o, name)
         if o is None or isinstance(o, (str, list, dict, tuple, int, SStr, SymInt, bytes, bytearray, bool, float, _SymBytes, set, frozenset)):
             if isinstance(o, _SymBytes) or hasattr(self._proto(o), name):
@@ -1189,7 +1193,7 @@ class Interp:
             raise EngineError("type(%r)" % (x,))
 
         def _enumerate(x, start=0):
-            if isinstance(x, (SeqList, ArrList)):
+            if isinstance(x, (SeqList, ArrList, AbsList)):
                 return EnumView(x, start)
             return ((start + i, v) for i, v in enumerate(self.iterate(x)))
 
@@ -1328,7 +1332,7 @@ class Interp:
 
     # ------------------------------------------------------------------ native / symbolic methods
     def call_native_method(self, recv, name, args, kwargs):
-        if isinstance(recv, (SeqList, ArrList)):
+        if isinstance(recv, (SeqList, ArrList, AbsList)):
             return recv.method(self, name, args, kwargs)
         if isinstance(recv, _SymBytes):
             if name == "decode":
